@@ -6,6 +6,7 @@ import (
 	"context"
 	"fmt"
 	"io"
+	apiequality "k8s.io/apimachinery/pkg/api/equality"
 	mathrand "math/rand"
 	"net"
 	"net/http"
@@ -15,6 +16,7 @@ import (
 	"strings"
 	"sync"
 	"sync/atomic"
+	"syscall"
 	"testing/synctest"
 	"time"
 
@@ -286,7 +288,9 @@ func (w *World) dialUpstream(ctx context.Context, network, addr string) (net.Con
 	switch s.DialMode {
 	case "refused":
 		w.R.Fault("dial_refused")
-		return nil, &net.OpError{Op: "dial", Net: network, Err: &sysErr{"connect: connection refused"}}
+		// the shape a real refused connect has: the shipped code classifies it with
+		// utilnet.IsConnectionRefused (and then triggers a health probe at once)
+		return nil, &net.OpError{Op: "dial", Net: network, Err: &os.SyscallError{Syscall: "connect", Err: syscall.ECONNREFUSED}}
 	case "blackhole":
 		w.R.Fault("dial_blackhole")
 		<-ctx.Done()
@@ -378,7 +382,16 @@ func (w *World) Apply(obj *proxyv1alpha1.UpstreamCluster) error {
 	}
 	w.versions[obj.Name]++
 	obj.ResourceVersion = fmt.Sprint(w.versions[obj.Name])
-	obj.Generation = int64(w.versions[obj.Name])
+	// metadata.generation as an API server maintains it: 1 for a new object (also
+	// for one that is created again under an old name), +1 whenever the spec changes
+	if !exists {
+		obj.Generation = 1
+	} else {
+		obj.Generation = w.objs[obj.Name].Generation
+		if !apiequality.Semantic.DeepEqual(w.objs[obj.Name].Spec, obj.Spec) {
+			obj.Generation++
+		}
+	}
 	var err error
 	if exists {
 		_, err = w.Fake.ProxyV1alpha1().UpstreamClusters().Update(context.Background(), obj, metav1.UpdateOptions{})
